@@ -25,7 +25,8 @@ from ..world import World, run_world
 ID = 'C15'
 LEVEL = 'exploration'
 QUICK_SCALE = 2.5      # the quick tier was enlarged by this factor after MIN_OBS['quick'] was measured
-QUICK_FIXED = ('exhaustive_gap_cases', 'send_failure_sweep_cases', 'xfer_sequences', 'transfer_ops',
+QUICK_FIXED = ('exhaustive_gap_cases', 'send_failure_sweep_cases', 'xfer_sequences', 'transfer_ops', 'xfast_sequences',
+               'unsettled_transfer_ops', 'removals_right_after_finalisation',
                'transfer_reason_transitions', 'relogins_with_unfinished_transfer')   # fixed-size parts / parts sized after the enlargement: not scaled
 ME = 'me'
 USERS = ('u1', 'u2')
@@ -39,6 +40,8 @@ PROMPT_XFER = 1.0             # s; the same for a reason set by the transfer man
 PROMPT_RELOGIN = 20.5         # s; ... for a TRANSFER reason that outlives a disconnect: a management cycle may re-add it
 #                               while there is no session; that worker's attempts (10 s wait + 10 s) become visible late
 XFER_SETTLE = 1.0             # s; after every transfer operation the harness lets the management cycle apply it
+XFER_WINDOW = 0.35            # s; ... unless the step is marked 'fast': then the cycle (every 0.05 .. 0.25 s) applies it at an
+#                               unknown moment within this window, possibly after the workload's next steps
 EXH_K = 13                    # k = 0..12 yields in the exhaustive sub-space
 
 RULE = (
@@ -61,7 +64,10 @@ RULE = (
     "(client.transfers.download(user, path, paused=True): a real, unfinished, never served transfer entry), aborts and "
     "removes them, mixed with direct REQUESTED/FRIEND calls (gap knob as above) and disconnects + re-login; the reason "
     "'has an unfinished transfer' is folded from the harness' own record of the transfers it created / aborted / removed "
-    "and is re-asserted at every login. Non-trivial = >= 1 AddUser for u1/u2 observed; distinct = "
+    "and is re-asserted at every login. Family 'xfast': the same operations WITHOUT letting the management cycle "
+    "run in between: finalisation (abort) and removal, additions of further transfers and direct REQUESTED/FRIEND calls "
+    "follow each other after 0..3 loop steps or 1..40 ms, in every order (directed histories x 9 gaps + seeded "
+    "sequences, no disconnects), judged at quiescence as usual. Non-trivial = >= 1 AddUser for u1/u2 observed; distinct = "
     "(call sequence with flags, gap classes, consumed behaviours, disconnect positions)."
 )
 ASSUMPTIONS = [
@@ -97,18 +103,26 @@ ASSUMPTIONS = [
     "(SessionInitialized requests a cycle); a cycle may also re-add it while there is no session (then flags TRANSFER / "
     "a retrying worker are not residue, and the first AddUser of the new session may be that worker's retry: bound "
     "20.5 s after the login). Direct calls in this family use REQUESTED / FRIEND only.",
+    "Family 'xfast' (no wait after a transfer operation): the transfer manager looks at the transfers once per management "
+    "cycle, so a change of the TRANSFER reason takes effect at an unknown moment within 0.35 s, possibly after the "
+    "workload's next calls for that user, and a reason that appears and disappears again (or the reverse) within that "
+    "window may never be seen. Every such placement is accepted: the judge evaluates all of them and reports only what "
+    "fails under every one. (What can not be explained by any placement: a reason that stays set for good.)",
 ]
 MIN_OBS = {
     'quick': {'sequences': 2150, 'calls_issued': 7000, 'add_user_frames': 3200, 'remove_user_frames': 1000,
               'retries_judged': 350, 'quiescence_checks': 2500, 'disconnects': 450, 'exhaustive_gap_cases': 585, 'send_failure_sweep_cases': 144,
+              'xfast_sequences': 490, 'unsettled_transfer_ops': 1000, 'removals_right_after_finalisation': 150,
               'xfer_sequences': 590, 'transfer_ops': 1200, 'transfer_reason_transitions': 900, 'relogins_with_unfinished_transfer': 150},
     'thorough': {'sequences': 60000, 'calls_issued': 250000, 'add_user_frames': 100000, 'remove_user_frames': 30000,
                  'retries_judged': 15000, 'quiescence_checks': 60000, 'disconnects': 12000, 'exhaustive_gap_cases': 585, 'send_failure_sweep_cases': 144,
+                 'xfast_sequences': 14900, 'unsettled_transfer_ops': 30000, 'removals_right_after_finalisation': 4000,
                  'xfer_sequences': 19900, 'transfer_ops': 40000, 'transfer_reason_transitions': 30000, 'relogins_with_unfinished_transfer': 5000},
 }
 SHARD_TIMEOUT = {'quick': 600, 'thorough': 5400}
 N_RANDOM = {'quick': 5000, 'thorough': 250000}
 N_XFER = {'quick': 600, 'thorough': 20000}
+N_XFAST = {'quick': 500, 'thorough': 15000}
 EXHAUSTIVE = {'quick': False, 'thorough': False}   # only the named sub-space is exhaustive
 WHAT_FAILS = {
     'lost-call:track-while-worker-finishing': 'a track_user call that runs between the worker task returning and its '
@@ -135,6 +149,9 @@ WHAT_FAILS = {
     'transfer-reason-outlives-removed-transfer':
         'TransferManager.remove() of an unfinished transfer: the user is in neither the finished nor the unfinished set '
         'of the next management cycle, the TRANSFER reason is never withdrawn (no RemoveUser, flags keep TRANSFER)',
+    'transfer-reason-outlives-transfer-removed-right-after-finalisation':
+        'a transfer is finalised (abort) and removed before the management cycle has handled the finalisation: neither '
+        'the cycle (user no longer listed) nor remove() withdraws the TRANSFER reason (no RemoveUser, flags keep TRANSFER)',
     'transfer-reason-lost-across-relogin':
         'a user with an unfinished transfer is not tracked again (no AddUser, flags lack TRANSFER) in the session that '
         'follows a disconnect + login, although the reason remains',
@@ -379,6 +396,93 @@ def xfer_directed() -> list[dict]:
     return out
 
 
+FAST_GAPS = (['y', 0], ['y', 1], ['y', 2], ['y', 3], ['d', 0.001, 0], ['d', 0.005, 0], ['d', 0.01, 0], ['d', 0.02, 0],
+             ['d', 0.04, 0])
+
+
+def xfast_directed() -> list[dict]:
+    """Finalisation and removal (and whatever else) follow each other without a management cycle in between."""
+    y0 = ['y', 0]
+    out = []
+    for g in FAST_GAPS:
+        def ta(n, u='u1', gap=g, fast=True):
+            return {'op': 'ta', 'u': u, 'n': n, 'gap': list(gap), 'fast': fast}
+
+        def tb(n, u='u1', gap=g, fast=True):
+            return {'op': 'tb', 'u': u, 'n': n, 'gap': list(gap), 'fast': fast}
+
+        def tr(n, u='u1', gap=g, fast=True):
+            return {'op': 'tr', 'u': u, 'n': n, 'gap': list(gap), 'fast': fast}
+
+        def c(op, f, u='u1', gap=g):
+            return {'op': op, 'u': u, 'f': f, 'gap': list(gap)}
+        first = ta(0, gap=y0, fast=False)          # settled: u1 is tracked for its transfer
+        d = ['d', 0.05, 0]
+        hist = {
+            'abort-remove': [first, tb(0, gap=d), tr(0)],
+            'abort-remove-then-add': [first, tb(0, gap=d), tr(0), ta(1)],
+            'abort-add-remove': [first, tb(0, gap=d), ta(1), tr(0)],
+            'abort-remove-remove-other': [first, ta(1, gap=d, fast=False), tb(0, gap=d), tr(0), tb(1), tr(1)],
+            'abort-both-remove-both': [first, ta(1, gap=d, fast=False), tb(0, gap=d), tb(1), tr(0), tr(1)],
+            'track-abort-remove-untrack': [first, c('t', 'REQUESTED', gap=d), tb(0, gap=d), tr(0), c('u', 'REQUESTED')],
+            'abort-track-remove': [first, tb(0, gap=d), c('t', 'REQUESTED'), tr(0)],
+            'abort-remove-track': [first, tb(0, gap=d), tr(0), c('t', 'REQUESTED')],
+            'abort-remove-track-untrack': [first, tb(0, gap=d), tr(0), c('t', 'FRIEND'), c('u', 'FRIEND')],
+            'add-abort-remove-unsettled': [ta(0, gap=y0), tb(0), tr(0)],
+            'add-remove-unsettled': [ta(0, gap=y0), tr(0)],
+            'add-abort-unsettled': [ta(0, gap=y0), tb(0)],
+            'two-users-abort-remove': [first, ta(1, 'u2', gap=d, fast=False), tb(0, gap=d), tr(0), tb(1, 'u2'), tr(1, 'u2')],
+        }
+        for name, steps in hist.items():
+            out.append({'mode': 'xfast', 'variant': f'{name}:{gap_class(g)}', 'k': '', 'beh': {},
+                        'steps': [dict(s_) for s_ in steps]})
+    return out
+
+
+def gen_xfast(seed: int, idx: int, length: int) -> dict:
+    rng = random.Random(f'{seed}:{ID}:xfast:{idx}')
+    users = USERS[:1] if rng.random() < 0.6 else USERS
+    beh = {u: ([] if rng.random() < 0.8 else ['silence']) for u in users}
+    steps: list = []
+    xf: list = []
+    have = {u: set() for u in users}
+    last_final = None
+    for j in range(length):
+        gap = list(rng.choice(FAST_GAPS)) if steps and rng.random() < 0.85 else (['d', 0.05, 0] if steps else ['y', 0])
+        fast = rng.random() < 0.8
+        live = [n for n, x in enumerate(xf) if x[1] == 'unfinished']
+        final = [n for n, x in enumerate(xf) if x[1] == 'finalized']
+        r = rng.random()
+        if last_final is not None and xf[last_final][1] == 'finalized' and r < 0.55:
+            n = last_final                                   # remove what has just been finalised
+            steps.append({'op': 'tr', 'u': xf[n][0], 'n': n, 'gap': gap, 'fast': fast})
+            xf[n][1] = 'removed'
+            last_final = None
+        elif not xf or r < 0.25 or (not live and not final and r < 0.7):
+            u = rng.choice(users)
+            steps.append({'op': 'ta', 'u': u, 'n': len(xf), 'gap': gap, 'fast': fast and bool(xf)})
+            xf.append([u, 'unfinished'])
+        elif r < 0.55 and live:
+            n = rng.choice(live)
+            steps.append({'op': 'tb', 'u': xf[n][0], 'n': n, 'gap': gap, 'fast': fast})
+            xf[n][1] = 'finalized'
+            last_final = n
+        elif r < 0.68 and (live or final):
+            n = rng.choice(live + final)
+            steps.append({'op': 'tr', 'u': xf[n][0], 'n': n, 'gap': gap, 'fast': fast})
+            xf[n][1] = 'removed'
+        else:
+            u = rng.choice(users)
+            if have[u] and rng.random() < 0.5:
+                op, f = 'u', rng.choice(sorted(have[u]))
+                have[u].discard(f)
+            else:
+                op, f = 't', rng.choice(XFER_FLAGS)
+                have[u].add(f)
+            steps.append({'op': op, 'u': u, 'f': f, 'gap': gap})
+    return {'steps': steps, 'beh': beh}
+
+
 # witnesses of earlier findings, kept as directed cases (shortest histories that exposed a mechanism)
 REGRESSION_CASES = [
     # 3932ee3: the tracking task is cancelled (connection cut) while it is cancelling its own retry timer
@@ -401,6 +505,12 @@ def cases(tier: str, seed: int) -> list[dict]:
     for i in range(n):
         c = gen_xfer(seed, i, 2 + min(MAX_CALLS - 2, int(i / max(1, n) * 7)))
         c.update(mode='xfer', seed=seed, idx=f'x{i}')
+        out.append(c)
+    out.extend(xfast_directed())
+    n = N_XFAST[tier] - len(xfast_directed())
+    for i in range(n):
+        c = gen_xfast(seed, i, 3 + min(MAX_CALLS - 3, int(i / max(1, n) * 6)))
+        c.update(mode='xfast', seed=seed, idx=f'f{i}')
         out.append(c)
     n = N_RANDOM[tier]
     for i in range(n):
@@ -425,7 +535,8 @@ def step_str(s: dict) -> str:
     if s['op'] == 'x':
         return f"[{gap_class(s['gap'])}]X:{s['mode']}:{s['wait']:g}"
     if s['op'] in ('ta', 'tb', 'tr'):
-        return f"[{gap_class(s['gap'])}]{ {'ta': 'add', 'tb': 'abort', 'tr': 'remove'}[s['op']] }-transfer#{s['n']}:{s['u']}"
+        return f"[{gap_class(s['gap'])}]{ {'ta': 'add', 'tb': 'abort', 'tr': 'remove'}[s['op']] }-transfer#{s['n']}:{s['u']}" + \
+            ('!' if s.get('fast') else '')
     return f"[{gap_class(s['gap'])}]{s['op']}:{s['u']}:{s['f'][0]}"
 
 
@@ -470,6 +581,58 @@ def nonempty_throughout(timeline: list, t0: float, t1: float) -> bool:
     return not any(t0 < tt <= t1 and not fl for tt, fl in timeline)
 
 
+def placements(calls: list, limit: int = 400) -> list:
+    """Family xfast: every order in which the management cycle may have applied the unsettled changes of the TRANSFER
+    reason relative to the calls that followed within XFER_WINDOW.  Returns alternative call lists (the first one is
+    the recorded order)."""
+    fast = [p for p, c in enumerate(calls) if c.get('fast')]
+    if not fast:
+        return [calls]
+    options = []
+    for p in fast:
+        c = calls[p]
+        opts: list = [('at', p)]
+        for q in range(p + 1, len(calls)):
+            d = calls[q]
+            if d['t'] > c['t'] + XFER_WINDOW:
+                break
+            if d['u'] != c['u'] or d['epoch'] != c['epoch']:
+                continue
+            if d.get('via'):
+                if d['op'] != c['op']:
+                    opts.append(('cancel', q))      # appeared and disappeared between two cycles: never seen
+                break
+            opts.append(('after', q))
+        options.append(opts)
+    out = []
+    for combo in itertools.islice(itertools.product(*options), limit):
+        gone, moved = set(), {}
+        ok = True
+        for p, (kind, q) in zip(fast, combo):
+            if p in gone:
+                continue                      # cancelled together with its predecessor: its own option is void
+            if kind == 'cancel':
+                if q in gone:
+                    ok = False
+                    break
+                gone.update((p, q))
+            elif kind == 'after':
+                moved.setdefault(q, []).append(p)
+        if not ok:
+            continue
+        seq = []
+        for p, c in enumerate(calls):
+            if p in gone:
+                continue
+            if not any(p in ps for ps in moved.values()):
+                seq.append(c)
+            for m in moved.get(p, []):
+                if m not in gone:
+                    seq.append(dict(calls[m], t=c['t'], placed_after=c['i']))
+        out.append(seq)
+    return out or [calls]
+
+
 def judge(run: dict, choice: dict) -> tuple[list, dict]:
     """run: the recorded case; choice: call index -> 'kept'|'dropped' for calls that ran inside a CLOSED dispatch.
     Returns ([(sig, user, epoch, detail)], stats)."""
@@ -491,6 +654,7 @@ def judge(run: dict, choice: dict) -> tuple[list, dict]:
     via = {c['i']: c.get('via') for c in run['calls']}          # how a TRANSFER reason change came about (family xfer)
     relogin_reason = {(c['epoch'], c['u']) for c in run['calls'] if c.get('via') == 'relogin'}
     removed_unfinished = {(c['epoch'], c['u']) for c in run['calls'] if c.get('via') == 'remove'}
+    removed_right_after = {(e_, u_) for e_, u_, *_ in run.get('quick_removals', [])}
 
     def prompt(key, t_login, t_trans, i) -> float:
         if key in relogin_reason and t_login is not None and t_trans <= t_login + PROMPT_RELOGIN:
@@ -696,6 +860,26 @@ def judge(run: dict, choice: dict) -> tuple[list, dict]:
             out.append(('transfer-reason-lost-across-relogin', u, e, {
                 'consequences': sorted(set(sigs)), 'session_began_at': run['logins'].get(e),
                 'unfinished_transfer_remains': True}))
+    # ... and of a third: finalised and removed before the management cycle handled the finalisation
+    if removed_right_after:
+        rest, cons = [], {}
+        for sig, u, e, detail in out:
+            stays = sig == 'missing-untrack-request' or (
+                sig == 'lost-call:flags-differ' and 'TRANSFER' in detail['reported_flags']
+                and 'TRANSFER' not in detail['model_flags'])
+            if (e, u) in removed_right_after and (stays or (e, u) in cons):
+                cons.setdefault((e, u), []).append(sig)
+            else:
+                rest.append((sig, u, e, detail))
+        if cons:
+            # earlier consequences of the same (frames shifted against the model) join the finding
+            out = [x for x in rest if (x[2], x[1]) not in cons or x[0].split(':')[0] in (
+                'residue-after-disconnect', 'retry-too-early', 'retry-missing')]
+            for (e, u), sigs in cons.items():
+                sigs += [x[0] for x in rest if (x[2], x[1]) == (e, u) and x not in out]
+                out.append(('transfer-reason-outlives-transfer-removed-right-after-finalisation', u, e, {
+                    'consequences': sorted(set(sigs)),
+                    'removals': [x for x in run['quick_removals'] if (x[0], x[1]) == (e, u)]}))
     for (e, u), sigs in kept_reason.items():
         ops = [c for c in run['calls'] if c['epoch'] == e and c['u'] == u and c.get('via') == 'remove']
         out.append(('transfer-reason-outlives-removed-transfer', u, e, {'consequences': sorted(set(sigs)), 'removals': ops}))
@@ -791,9 +975,10 @@ def run_case(params: dict) -> dict:
                     raise RuntimeError(f"transfer #{n}: harness record {x['state']} but library state "
                                        f"{x['obj'].state.VALUE.name}")
 
-        def reason_call(i, user, op, how, at=None):
+        def reason_call(i, user, op, how, at=None, fast=False):
             ent = tm._tracked_users.get(user)
             run['calls'].append({
+                'fast': fast,
                 'i': i, 't': now() if at is None else at, 'it': w.loop.iterations, 'op': op, 'u': user, 'f': 'TRANSFER',
                 'epoch': st['epoch'], 'phase': 'open', 'after_cut': st['cut_pending'], 'entry': ent is not None,
                 'worker_done': False, 'via': how, 'pre': at is not None})
@@ -946,7 +1131,12 @@ def run_case(params: dict) -> dict:
                         elif s['op'] == 'tb':
                             await client.transfers.abort(xfers[n]['obj'])
                             xfers[n]['state'] = 'finalized'
+                            xfers[n]['finalized_at'] = now()
                         else:
+                            if xfers[n]['state'] == 'finalized' and now() - xfers[n]['finalized_at'] <= XFER_WINDOW:
+                                run.setdefault('quick_removals', []).append(
+                                    [st['epoch'], user, n, xfers[n]['finalized_at'], now()])
+                                runner.add_obs(res, 'removals_right_after_finalisation')
                             await client.transfers.remove(xfers[n]['obj'])
                             xfers[n]['state'] = 'removed'
                     except Exception as exc:  # noqa  (reported as a violation below, never swallowed)
@@ -954,13 +1144,17 @@ def run_case(params: dict) -> dict:
                         return True
                     after = has_unfinished(user)
                     if after != before:
-                        reason_call(i, user, 't' if after else 'u', {'ta': 'add', 'tb': 'abort', 'tr': 'remove'}[s['op']])
+                        reason_call(i, user, 't' if after else 'u', {'ta': 'add', 'tb': 'abort', 'tr': 'remove'}[s['op']],
+                                    fast=bool(s.get('fast')))
                     return True
                 while not await h.call(xop()):
                     await ensure_session(last_wait)
                 runner.add_obs(res, 'calls_issued')
                 runner.add_obs(res, 'transfer_ops')
-                await settle(XFER_SETTLE)       # the management cycle turns the change into track / untrack calls
+                if s.get('fast'):
+                    runner.add_obs(res, 'unsettled_transfer_ops')
+                else:
+                    await settle(XFER_SETTLE)   # the management cycle turns the change into track / untrack calls
                 continue
             user, flag = s['u'], TrackingFlag[s['f']]
 
@@ -1083,12 +1277,17 @@ def run_case(params: dict) -> dict:
     # -- judge (every reading of calls that ran inside a CLOSED dispatch) --------------------
     amb = [c['i'] for c in run['calls'] if c['phase'] == 'window']
     best = None
+    orders = placements(run['calls'])
+    runner.add_obs(res, 'placements_evaluated', len(orders))
     for combo in itertools.product(('dropped', 'kept'), repeat=len(amb)):
         choice = dict(zip(amb, combo))
-        v, stats = judge(run, choice)
-        if best is None or len(v) < len(best[0]):
-            best = (v, stats, choice)
-        if not v:
+        for order in orders:
+            v, stats = judge(dict(run, calls=order), choice)
+            if best is None or len(v) < len(best[0]):
+                best = (v, stats, choice)
+            if not v:
+                break
+        if best is not None and not best[0]:
             break
     viol, stats, choice = best
 
@@ -1146,7 +1345,7 @@ def run_case(params: dict) -> dict:
     if params.get('mode') == 'sweep':
         runner.add_obs(res, 'send_failure_sweep_cases')
     if xfer_mode:
-        runner.add_obs(res, 'xfer_sequences')
+        runner.add_obs(res, 'xfast_sequences' if params.get('mode') == 'xfast' else 'xfer_sequences')
     for s in steps:
         runner.add_cover(res, 'gap_kinds', s['gap'][0] if s['gap'][0] != 'd' else f"d{s['gap'][1]:g}")
     for per in run['frames'].values():
